@@ -12,7 +12,8 @@ use vmon::rng::Rng;
 /// F13: enum sources with derives in any position, path-qualified derives, several derive
 /// attributes, cfg_attr, repr, doc comments, attributes on variants and fields, lifetimes.
 pub fn gen_source(rng: &mut Rng, i: usize) -> String {
-    let logos_forms = ["Logos", "logos::Logos", "::logos::Logos"];
+    // the derive may be reached through any path (re-exports, renamed dependencies, `#[logos(crate = ..)]` setups)
+    let logos_forms = ["Logos", "logos::Logos", "::logos::Logos", "Logos", "logos::Logos", "logos_crate::Logos", "my::deps::logos::Logos", "::some::path::_logos::Logos", "crate::reexports::Logos"];
     let others = ["Debug", "Clone", "PartialEq", "serde::Serialize", "::core::fmt::Debug", "core::hash::Hash", "Eq", "std::cmp::PartialOrd", "Copy", "::serde::Deserialize"];
     let mut s = String::new();
     if rng.chance(1, 2) {
